@@ -10,6 +10,7 @@
 //            (doc: retire outside the critical section, a full queue would otherwise deadlock).
 //   reader: create_accessor on gc.epoch(); lock; hold for a virtual time; unlock + release either itself
 //           or after moving the locked accessor to a closer thread.
+#include "known.h"
 #include <babylon/concurrent/garbage_collector.h>
 
 #include <stdio.h>
@@ -33,10 +34,7 @@ namespace {
 // stop marker. The shape is exactly: stop() / ~GarbageCollector() called while a region that was (or may have
 // been) open when a not yet invoked reclaimer was retired is still open. Excluded (stop is postponed until
 // those regions are closed) unless VF_ALLOW_KNOWN is set to something other than 0.
-bool read_allow_known() {
-  const char* e = getenv("VF_ALLOW_KNOWN");
-  return e && *e && *e != '0';
-}
+bool read_allow_known() { return vf_allow_known("f2"); }
 
 constexpr int MAX_TASKS = 40;
 constexpr int MAX_REGIONS = 8;
